@@ -1,7 +1,10 @@
 #!/bin/bash
 # Re-runs every kept seeded change against its own property's quick check (after the checks were changed) and lists misses.
+# usage: tools/reeval_all.sh [k n]   - only the seeds whose index is k modulo n (to run n of these side by side)
 cd "$(dirname "$(readlink -f "$0")")/.."
+K=${1:-0}; N=${2:-1}; i=0
 for d in seeded/C*; do
+  i=$((i+1)); [ $((i % N)) -eq $K ] || continue
   p=$(basename $d | cut -d- -f1)
   r=$(tools/evalseed.sh $d $p | tail -1)
   case "$r" in *"rc=1"*) echo "caught  $(basename $d)";; *) echo "MISSED  $(basename $d)   $r";; esac
